@@ -22,6 +22,7 @@ type ReplayCase struct {
 	Harness string     `json:"harness"`
 	Tier    int        `json:"tier"`
 	Vector  []VecEntry `json:"vector"`
+	Race    bool       `json:"race,omitempty"` // replay under the race detector (C17)
 }
 
 type ReplayResult struct {
@@ -88,8 +89,14 @@ func replayNative(repo, harnessDir string, ld *Loaded, cases []ReplayCase, timeo
 
 	ctx, cancel := context.WithTimeout(context.Background(), timeout)
 	defer cancel()
-	cmd := exec.CommandContext(ctx, "go", "test", "-v", "-tags", "verif", "-vet=off", "-count=1", "-overlay", ovPath,
-		"-run", "^TestVerifReplay$", "-timeout", fmt.Sprintf("%ds", int(timeout.Seconds())), ".")
+	argv := []string{"test", "-v", "-tags", "verif", "-vet=off", "-count=1", "-overlay", ovPath,
+		"-run", "^TestVerifReplay$", "-timeout", fmt.Sprintf("%ds", int(timeout.Seconds()))}
+	race := len(cases) > 0 && cases[0].Race
+	if race {
+		argv = append(argv, "-race")
+	}
+	argv = append(argv, ".")
+	cmd := exec.CommandContext(ctx, "go", argv...)
 	cmd.Dir = repo
 	cmd.Env = append(os.Environ(), "GOFLAGS=-mod=mod", "GOPROXY=off", "GOSUMDB=off", "GOTOOLCHAIN=local", "VERIF_REPLAY="+casePath)
 	var outb bytes.Buffer
@@ -111,6 +118,19 @@ func replayNative(repo, harnessDir string, ld *Loaded, cases []ReplayCase, timeo
 		}
 	}
 	log := strings.Join(other, "\n")
+	if race && strings.Contains(outb.String()+log, "DATA RACE") {
+		// the race detector fired while the cases of this batch ran concurrently with themselves
+		for id, r := range res {
+			r.Outcome = "race"
+			r.Msg = "race detector: WARNING: DATA RACE"
+			res[id] = r
+		}
+		for _, c := range cases {
+			if _, ok := res[c.ID]; !ok {
+				res[c.ID] = ReplayResult{ID: c.ID, Outcome: "race", Msg: "race detector: WARNING: DATA RACE"}
+			}
+		}
+	}
 	if len(res) == 0 && runErr != nil {
 		return res, log, fmt.Errorf("native replay failed: %v\n%s", runErr, log)
 	}
